@@ -407,6 +407,45 @@ fn body_fast_check(slots: usize) -> impl Fn(&Ch) -> Run + Sync + Send {
   }
 }
 
+/// WebAssembly modules: a failure behind any of their imports (function or not) is a reachable failure.
+fn body_wasm(ch: &Ch) -> Run {
+  let mut run = Run::default();
+  let sched = Sched::new(SchedMode::Immediate);
+  let loader = ScriptedLoader::new(sched);
+  let (w, root) = crate::props::c01::wasm_world(ch, &loader);
+  let mut g = ModuleGraph::new(GraphKind::All);
+  if build_graph(&mut g, vec![root.clone()], &loader, BuildCfg::default(), ch).is_err() {
+    run.violate("build-did-not-finish", "deadlock", w.describe.clone());
+    return run;
+  }
+  let view = SlotView::new(&g);
+  // ground truth by construction: ./missing.ts and ./a.ts#frag are not served
+  let must_fail = w.imports.iter().any(|(m, _, _)| *m == "./missing.ts" || m.contains('#'));
+  let mut verdicts = vec![];
+  for o in crate::props::c15::all_opts() {
+    let case = || json!({"world": w.describe, "options": format!("{o:?}")});
+    let got = g.walk([&root].into_iter(), o.walk_options()).validate();
+    run.evals += 1;
+    verdicts.push(got.is_ok());
+    if got.is_ok() == must_fail {
+      run.violate(
+        format!("{}@wasm-import", if must_fail { "validate-ok-despite-reachable-failure" } else { "validate-fails-without-reachable-failure" }),
+        format!("validate() under {o:?} = {:?}; the wasm module imports from {:?}", got.as_ref().map_err(|e| e.to_string()), w.imports.iter().map(|(m, _, k)| format!("{m} ({k})")).collect::<Vec<_>>()),
+        case(),
+      );
+    }
+    // and the reachability reference over the graph's own data agrees
+    check_validation(&g, &view, std::slice::from_ref(&root), &o, &mut run, &case);
+  }
+  run.state_key = hash_of(&(format!("{:?}", w.imports), w.via_ts));
+  run.nontrivial = !w.imports.is_empty();
+  run.outcome_key = hash_of(&verdicts);
+  if ch.describe() {
+    run.sample = Some(w.describe.clone());
+  }
+  run
+}
+
 pub fn prop(tier: Tier) -> Prop {
   let mut parts = vec![Part {
     name: "placements",
@@ -458,6 +497,12 @@ pub fn prop(tier: Tier) -> Prop {
       Tier::Thorough => vec![Mode::Deviations(2), Mode::Deviations(3)],
     },
     what: "graphs with fast-check modules (generated package + dependency package after build_fast_check_type_graph, with failing imports that only function bodies use): validate() under all 36 option sets incl. prefer_fast_check_graph vs the reachability reference",
+  });
+  parts.push(Part {
+    name: "wasm-imports",
+    body: Box::new(body_wasm),
+    modes: vec![Mode::Full],
+    what: "generated WebAssembly binaries with <= 3 imports (function, memory, table, global, tag) from present / absent specifiers: validate() under all 36 option sets against the verdict known by construction and the reachability reference",
   });
   Prop {
     id: "C02",
